@@ -32,6 +32,7 @@ def atoms_for(r):
         # text is ordered too (lexicographically): `not (name > 'b')` is `name <= 'b'`
         "name > 'b'", "name <= 'a9'", "name >= 'b1'", "name < 'adir'", "ext >= 'rs'", "ext < 'txt'",
         "name between 'a5' and 'b2'", "name not between 'a5' and 'b2'",
+        "length(name) >= 2", "length(name) <= 11", "length(name) between 3 and 12", "length(name) not between 3 and 12", "size * 2 >= 20", "size * 2 < 100",
         # pattern operators match the text of a value of any type
         "size like '1%'", "size not like '1%'", "hardlinks =~ '^1$'", "size !=~ '^1'", "is_dir like 'f%'", "is_dir not like 'f%'",
         "modified like '2023-11-15%'", "modified not like '%00:00:00'", "length(name) like '_'",
@@ -55,6 +56,9 @@ def tree():
     ents.append({"path": "bdir.txt", "kind": "d", "mode": 0o700, "mtime": day + 86400})
     ents.append({"path": "adir/a1.txt", "kind": "f", "size": 10, "mode": 0o644, "mtime": day})
     ents.append({"path": "adir/hl", "kind": "f", "size": 11, "mode": 0o644, "mtime": day - 1})
+    # names of 10 to 14 characters next to the short ones: as text "7" > "11", as numbers 7 < 11
+    for k, nm in enumerate(["abcdefghij", "abcdefghijk", "abcdefghijkl.t", "b-long-name-1"]):
+        ents.append({"path": nm, "kind": "f", "size": [9, 10, 11, 100][k], "mode": 0o644, "mtime": day + k})
     return ents
 
 
@@ -142,6 +146,11 @@ def run(ctx):
                 atoms = ["name > 'b'", "ext < 'txt'", "size > 10"]     # corpus: the witness of D73 (fixed) comes first
             if rd == 1:
                 atoms = ["size like '1%'", "is_dir not like 'f%'", "modified like '2023-11-15%'"]     # … and of D74 (fixed)
+            if rd == 2:
+                # the same call in two atoms of one formula (each atom is evaluated on its own, with the call's numeric value)
+                atoms = ["length(name) >= 2", "length(name) <= 11", "size > 10"]
+            if rd == 3:
+                atoms = ["length(name) between 3 and 12", "length(name) > 9", "length(name) != 6"]
             sets = []
             ok = True
             for a in atoms:
